@@ -836,6 +836,35 @@ theorem start_clocktime_roundtrip (sec : Int) (h0 : 0 ≤ sec) (h1 : sec < 86400
     congr 1
     omega
 
+/-- **`start_clocktime_roundtrip_source`**: the same over the AM/PM branch AS EXTRACTED from `_write_times` on this run
+(`Gen.startClockBranch`: operator, bound, which arm writes AM, what each arm subtracts from the hours): for every time of
+day what is written reads back unchanged.  A rewrite of the branch (another bound or operator, the noon hour in the AM
+arm, …) makes this proof fail. -/
+theorem start_clocktime_roundtrip_source (sec : Int) (h0 : 0 ≤ sec) (h1 : sec < 86400) :
+    clockTimeToSec (startHourT Wntr.InpSchema.Gen.startClockBranch sec) (hmsOf sec).2.1 (hmsOf sec).2.2
+      (startPmT Wntr.InpSchema.Gen.startClockBranch sec) = some sec :=
+  clock_branch_sound Wntr.InpSchema.Gen.startClockBranch (by decide +kernel) sec h0 h1
+where
+  /-- ANY branch table that is right on the 24 full hours is right on every second of the day: the reader's decisions
+  (`startswith('12')`, the PM limit) depend on the hour written only -/
+  clock_branch_sound (t : Nat × Int × Bool × Int × Int) (hok : branchOk t = true) (sec : Int) (h0 : 0 ≤ sec) (h1 : sec < 86400) :
+      clockTimeToSec (startHourT t sec) (hmsOf sec).2.1 (hmsOf sec).2.2 (startPmT t sec) = some sec := by
+    have hh : (sec / 3600).toNat < 24 := by omega
+    have hq := List.all_eq_true.mp hok (sec / 3600).toNat (List.mem_range.mpr hh)
+    have hcast : (((sec / 3600).toNat : Nat) : Int) = sec / 3600 := by omega
+    have hdiv : (sec / 3600 * 3600) / 3600 = sec / 3600 := by omega
+    simp only [hourOk, hcast, Bool.and_eq_true, beq_iff_eq, decide_eq_true_eq] at hq
+    obtain ⟨hq1, hq2⟩ := hq
+    have eH : startHourT t (sec / 3600 * 3600) = startHourT t sec := by simp only [startHourT, hdiv]
+    have eP : startPmT t (sec / 3600 * 3600) = startPmT t sec := by simp only [startPmT, hdiv]
+    rw [eH, eP] at hq1
+    rw [eH] at hq2
+    generalize startHourT t sec = H at hq1 hq2 ⊢
+    generalize startPmT t sec = P at hq1 ⊢
+    simp only [clockTimeToSec, hmsOf] at hq1 ⊢
+    cases P <;> simp only [Bool.false_eq_true, if_false, if_true] at hq1 ⊢ <;> split_ifs at hq1 ⊢ <;>
+      first | (simp only [Option.some.injEq] at hq1 ⊢; omega) | (exfalso; simp only [Option.some.injEq] at hq1; omega) | (exfalso; simp at hq1)
+
 /-- a start clock time of 24 h or more cannot be written: `_write_times` produces `12:00:00 PM`-like strings that the reader
 refuses ("Cannot specify am/pm for times greater than 12:00:00") — the hypothesis `sec < 86400` is needed -/
 example : clockTimeToSec (startHour 90000) (hmsOf 90000).2.1 (hmsOf 90000).2.2 (startPm 90000) = none := by decide +kernel
